@@ -129,6 +129,30 @@ M = [
     ("c20-lower", "C20", "modules/pel/hwdiags/parserdata.py", "        sig_id  = sig_id.lower()\n", "", "caught"),
 ]
 
+# behaviour-preserving refactors: every check must stay silent (exit 0)
+M += [
+    ("neg-rename-prettyPrint", "C06", P + "peltool.py", "ALL:prettyPrint", "alignOutput", "silent"),
+    ("neg-rename-considerPEL", "C07", P + "peltool.py", "ALL:considerPEL", "selectPEL", "silent"),
+    ("neg-rename-considerPEL-c08", "C08", P + "peltool.py", "ALL:considerPEL", "selectPEL", "silent"),
+    ("neg-inline-parseHeader", "C01", P + "peltool.py",
+     "    sectionID = stream.get_int(2)\n    sectionLen = stream.get_int(2)\n    versionID = stream.get_int(1)\n    subType = stream.get_int(1)\n    componentID = stream.get_int(2)\n    return sectionID, sectionLen, versionID, subType, componentID",
+     "    import struct\n    return struct.unpack('>HHBBH', stream.get_mem(8))", "silent"),
+    ("neg-inline-parseHeader-c05", "C05", P + "peltool.py",
+     "    sectionID = stream.get_int(2)\n    sectionLen = stream.get_int(2)\n    versionID = stream.get_int(1)\n    subType = stream.get_int(1)\n    componentID = stream.get_int(2)\n    return sectionID, sectionLen, versionID, subType, componentID",
+     "    import struct\n    return struct.unpack('>HHBBH', stream.get_mem(8))", "silent"),
+    ("neg-targetlp-list", "C02", P + "imp_partition.py", "            out[\"Target LP\"] = \", \".join(\n                \"0x{:04X}\".format(lp) for lp in self.targetLPs)",
+     "            out[\"Target LP\"] = [\"0x{:04X}\".format(lp) for lp in self.targetLPs]", "silent"),
+    ("neg-getint-direct", "C01", "modules/pel/datastream.py", "        return int.from_bytes(self.get_mem(num_bytes),\n                              byteorder=byte_order, signed=is_signed)",
+     "        if not self.check_range(num_bytes):\n            raise AssertionError(\"range check failure\")\n        raw = self.data[self.index: self.index + num_bytes]\n        self.index += num_bytes\n        return int.from_bytes(raw, byteorder=byte_order, signed=is_signed)", "silent"),
+    ("neg-getint-direct-c05", "C05", "modules/pel/datastream.py", "        return int.from_bytes(self.get_mem(num_bytes),\n                              byteorder=byte_order, signed=is_signed)",
+     "        if not self.check_range(num_bytes):\n            raise AssertionError(\"range check failure\")\n        raw = self.data[self.index: self.index + num_bytes]\n        self.index += num_bytes\n        return int.from_bytes(raw, byteorder=byte_order, signed=is_signed)", "silent"),
+    ("neg-diag-wording", "C09", P + "peltool.py", "ALL:Exception: No PEL parsed for", "Skipped (not a PEL):", "silent"),
+    ("neg-diag-wording-c05", "C05", P + "peltool.py", "ALL:Exception: No PEL parsed for", "Skipped (not a PEL):", "silent"),
+    ("neg-skip-reserved", "C01", P + "user_header.py", "        self.reserved4Byte1 = self.stream.get_int(4)", "        self.stream.inc_index(4)", "silent"),
+    ("neg-pretty-width-list", "C08", P + "peltool.py", "ALL:desiredSpace = 29", "desiredSpace = 31", "silent"),
+    ("neg-mru-list", "C03", P + "src.py", "                json[\"MRU Id\"] = mruId[:-1]", "                json[\"MRU Id\"] = mruId[:-1].split(\",\") if mruId else \"\"", "silent"),
+]
+
 # edits that need a second site
 EXTRA = {
     "c05-both-assert": ("modules/pel/datastream.py", "        if not self.check_range(num_bytes):\n            raise AssertionError(\"range check failure\")\n        o_mv =", "        assert self.check_range(num_bytes), \"range check failure\"\n        o_mv ="),
@@ -140,9 +164,12 @@ EXTRA = {
 def apply(root, path, old, new):
     fp = os.path.join(root, path)
     s = open(fp).read()
+    count = 1
+    if old.startswith("ALL:"):
+        old, count = old[4:], -1
     if old not in s:
         return False
-    open(fp, "w").write(s.replace(old, new, 1))
+    open(fp, "w").write(s.replace(old, new, count))
     return True
 
 
